@@ -794,3 +794,53 @@ class ConstraintOracle:
                 if m['name'] == v[0]:
                     self._walk(v[1], m, rmod, out)
             return
+
+
+# ---------------------------------------------------------------------------
+# generic structural equality of two decoded values (same library, two codec objects)
+# ---------------------------------------------------------------------------
+def struct_eq(a, b, conds, path='v'):
+    """appends z3 conditions for a == b; raises Mismatch on a shape/type difference"""
+    if isinstance(a, dict) or isinstance(b, dict):
+        if not (isinstance(a, dict) and isinstance(b, dict)) or set(a) != set(b):
+            raise Mismatch('%s: %r vs %r' % (path, a, b))
+        for k in a:
+            struct_eq(a[k], b[k], conds, '%s.%s' % (path, k))
+        return
+    if isinstance(a, (list, tuple)) or isinstance(b, (list, tuple)):
+        if type(a) is not type(b) or len(a) != len(b):
+            raise Mismatch('%s: %r vs %r' % (path, a, b))
+        for i, (x, y) in enumerate(zip(a, b)):
+            struct_eq(x, y, conds, '%s[%d]' % (path, i))
+        return
+    if isinstance(a, (bool, type(None))) or isinstance(b, (bool, type(None))):
+        if type(a) is not type(b) or a != b:
+            if isinstance(a, SymBool) or isinstance(b, SymBool):
+                conds.append(_leaf_eq(a, b))
+                return
+            raise Mismatch('%s: %r vs %r' % (path, a, b))
+        return
+    if isinstance(a, float) and isinstance(b, float):
+        if not (a == b or (math.isnan(a) and math.isnan(b))):
+            raise Mismatch('%s: %r vs %r' % (path, a, b))
+        return
+    kinds = []
+    for x in (a, b):
+        if isinstance(x, (int, SymInt)):
+            kinds.append('int')
+        elif isinstance(x, (bytes, bytearray, SymBytes)):
+            kinds.append('bytes')
+        elif isinstance(x, (str, SymStr)):
+            kinds.append('str')
+        else:
+            kinds.append(type(x).__name__)
+    if kinds[0] != kinds[1]:
+        raise Mismatch('%s: %s %r vs %s %r' % (path, kinds[0], a, kinds[1], b))
+    if kinds[0] in ('bytes', 'str'):
+        if len(a) != len(b):
+            raise Mismatch('%s: length %d vs %d' % (path, len(a), len(b)))
+        if kinds[0] == 'bytes':
+            a = a if isinstance(a, SymBytes) else SymBytes(a)
+        else:
+            a = SymStr.of(a)
+    conds.append(_leaf_eq(a, b))
